@@ -248,8 +248,11 @@ def main():
     ev = {"property_id": pid, "tier": tier, "seed": seed, "level": "proof", "coverage": cov,
           "assumptions": res.get("assumptions", []), "wall_s": round(time.time() - t0, 2),
           "violations": len(violations)}
-    os.makedirs(os.path.join(VERIF, "evidence"), exist_ok=True)
-    with open(os.path.join(VERIF, "evidence", pid + ".json"), "w") as fh:
+    # VERIF_EVIDENCE_DIR: where sanity runs against deliberately modified trees (tools/run_seeded.sh) put their evidence,
+    # so that evidence/ always describes the last run against /repo as it is
+    evdir = os.environ.get("VERIF_EVIDENCE_DIR") or os.path.join(VERIF, "evidence")
+    os.makedirs(evdir, exist_ok=True)
+    with open(os.path.join(evdir, pid + ".json"), "w") as fh:
         json.dump(ev, fh, indent=1, default=str)
     print("check %s tier=%s seed=%s: obligations %d/%d, evaluations %d, mismatches %d, impl failures %d (known %d), %.1fs"
           % (pid, tier, seed, lean["discharged"], lean["obligations"], cov["evaluations"], len(mism),
